@@ -292,10 +292,10 @@ var closureSpecs = []closureSpec{
 	{fn: "keeper.Keeper.UpdateAllianceAsset$1", via: []string{"keeper.Keeper.SetRewardWeightChangeSnapshot"}, props: []string{"C14", "C13"}, what: "every validator is settled and snapshotted"},
 	{fn: "keeper.Keeper.RebalanceBondTokenWeights$1", store: true, props: []string{"C10"}, what: "every validator is classified bonded/unbonded"},
 	{fn: "keeper.Keeper.GetAllianceBondedAmount$1", props: []string{"C11", "C10"}, what: "every delegation of the module is visited"},
-	{fn: "keeper.Keeper.ExportGenesis$1", via: []string{"builtin.append"}, props: []string{"C18"}, what: "every validator info exported"},
-	{fn: "keeper.Keeper.ExportGenesis$2", via: []string{"builtin.append"}, props: []string{"C18"}, what: "every delegation exported"},
-	{fn: "keeper.Keeper.ExportGenesis$3", via: []string{"builtin.append"}, props: []string{"C18"}, what: "every redelegation exported"},
-	{fn: "keeper.Keeper.ExportGenesis$4", via: []string{"builtin.append"}, props: []string{"C18"}, what: "every unbonding bucket exported"},
+	{fn: "keeper.Keeper.ExportGenesis$1", via: []string{"builtin.append"}, props: []string{"C18", "C03"}, what: "every validator info exported"},
+	{fn: "keeper.Keeper.ExportGenesis$2", via: []string{"builtin.append"}, props: []string{"C18", "C03"}, what: "every delegation exported"},
+	{fn: "keeper.Keeper.ExportGenesis$3", via: []string{"builtin.append"}, props: []string{"C18", "C15", "C07"}, what: "every redelegation exported"},
+	{fn: "keeper.Keeper.ExportGenesis$4", via: []string{"builtin.append"}, props: []string{"C18", "C01", "C02", "C07"}, what: "every unbonding bucket exported"},
 	{fn: "keeper.Keeper.ExportGenesis$5", via: []string{"builtin.append"}, props: []string{"C18"}, what: "every snapshot exported"},
 }
 
